@@ -62,6 +62,20 @@ func gen(t *rapid.T) Case {
 		c.Ops = append(c.Ops, hist.Op{K: "dataset", Path: dp, D: &hist.DSpec{Type: "i32", Dims: []uint64{2}}})
 		objects, all = append(objects, dp), append(all, dp)
 	}
+	if rapid.IntRange(0, 15).Draw(t, "exactHeap") == 0 {
+		// a group whose member names fill the group's name heap to the last byte (or to eight bytes short of it)
+		shape := rapid.SampledFrom([][2]int{{8, 31}, {16, 15}, {32, 7}, {8, 30}, {31, 7}, {4, 63}, {2, 127}}).Draw(t, "heapShape")
+		gp := "/full"
+		c.Ops = append(c.Ops, hist.Op{K: "group", Path: gp})
+		groups, objects, all = append(groups, gp), append(objects, gp), append(all, gp)
+		isGroup[gp] = true
+		for k := 0; k < shape[0]; k++ {
+			name := fmt.Sprintf("%02d", k) + strings.Repeat("m", shape[1]-2)
+			dp := gp + "/" + name
+			c.Ops = append(c.Ops, hist.Op{K: "dataset", Path: dp, D: &hist.DSpec{Type: "u8", Dims: []uint64{1}}})
+			objects, all = append(objects, dp), append(all, dp)
+		}
+	}
 	kinds := []string{"group", "group", "group", "dataset", "dataset", "hard", "hard", "dup", "orphan"}
 	if rapid.IntRange(0, 3).Draw(t, "withSoftExtDense") == 0 { // one case in four uses the link kinds that fall into open findings
 		kinds = append(kinds, "soft", "ext", "densegroup")
